@@ -155,6 +155,23 @@ class Boundary:
                 continue
             if cfg.dominated_by_edge(f, bb, d, tt) and tt != ft:
                 return True
+        # the same with the test written inline (`bytes[i].is_ascii_alphanumeric() || bytes[i] == b'_'`): one round of the loop tabulated
+        # over the byte at the cursor (E8); the increment is reached only for ASCII bytes
+        try:
+            from . import bulkops
+            from engine import e7
+            loops = [(h, body) for h, body in f.natural_loops() if bb in body]
+            if loops:
+                head, body = min(loops, key=lambda hb: len(hb[1]))
+                rec = bulkops.UnitRec(self.F, f)
+                rec.domains = {("unit",): list(range(256))}
+                outside = {b for b in range(len(f.blocks)) if b not in body}
+                ps = [p for p in e7.paths(f, head, rec, stop_at=outside | {bb}, limit=3000) if p["why"] == "stop" and p["end"] == bb]
+                if ps and rec.level == "byte" and all(("unit",) in p["guards"] and p["guards"][("unit",)].pos is not None
+                                                     and max(p["guards"][("unit",)].pos, default=0) < 128 for p in ps):
+                    return True
+        except Exception:
+            pass
         return False
 
 
